@@ -4453,6 +4453,11 @@ class TLSConnection(TLSRecordLayer):
             # Mandatory checks. If any one of these checks fail, the certificate
             # is not usable.
             try:
+                # EdDSA signatures are defined only for TLS 1.2 and later
+                if cert and version < (3, 3) and \
+                        cert.x509List[0].certAlg in ("Ed25519", "Ed448"):
+                    raise TLSHandshakeFailure(
+                        "EdDSA certificate can't be used below TLS 1.2")
                 # Find a suitable ciphersuite based on the certificate
                 ciphers = CipherSuite.filter_for_certificate(cipher_suites, cert)
                 # but if we have matching PSKs, prefer those
